@@ -68,13 +68,18 @@ class StaticCondensation(Module):
         self.module_LinSolve.sig_in[1].state = A[self.f, ...][..., self.m].todense()
         self.module_LinSolve.response()
         self.X = self.module_LinSolve.sig_out[0].state
-        return A[self.m, ...][..., self.m] - A[self.m, ...][..., self.f] @ self.X
+        self.Amf = A[self.m, ...][..., self.f]
+        return A[self.m, ...][..., self.m] - self.Amf @ self.X
 
     def _sensitivity(self, dfdB):
         C = np.zeros((self.n, len(self.m)), dtype=float)
         C[self.m, ...] = np.eye(len(self.m))
         C[self.f, ...] = -self.X
-        return C @ dfdB @ C.T if isinstance(dfdB, DyadCarrier) else DyadCarrier(list(C.T), list(np.asarray(dfdB @ C.T)))
+        # Left factor [I; -(A_mf A_ff^-1)^T], which equals C only for symmetric matrices
+        Cl = np.zeros((self.n, len(self.m)), dtype=float)
+        Cl[self.m, ...] = np.eye(len(self.m))
+        Cl[self.f, ...] = -self.module_LinSolve.solver.solve(np.asarray(self.Amf.T.todense()), trans='T')
+        return Cl @ dfdB @ C.T if isinstance(dfdB, DyadCarrier) else DyadCarrier(list(Cl.T), list(np.asarray(dfdB @ C.T)))
 
 
 class SystemOfEquations(Module):
